@@ -742,6 +742,11 @@ func c09GenEp(out *emit.Out, r *rand.Rand, thorough bool) {
 		if tg == "client" {
 			pre = []c09Step{{Op: "absorb"}}
 		}
+		// fragments of one message_seq that disagree about the total length, at and around the end of the first buffer
+		for _, v := range [][4]int{{100, 104, 98, 6}, {100, 101, 95, 6}, {100, 107, 100, 7}, {100, 200, 150, 50}, {100, 50, 40, 10}, {100, 100, 96, 8}, {97, 104, 96, 8}, {1, 8, 1, 7}, {65535, 65536, 65530, 6}} {
+			add("fragments-disagree-on-total", with(base, append(pre, c09Step{Op: "frag", Typ: 11, Total: v[0], Seq: 7, Off: 0, Len: 1},
+				c09Step{Op: "frag", Typ: 11, Total: v[1], Seq: 7, Off: v[2], Len: v[3]}, c09Step{Op: "rec", Typ: 21, Data: "015a"})))
+		}
 		add("fragment-flood-255", with(base, append(pre, c09Step{Op: "frag", Typ: 1, Total: 65536, Len: 1, N: 255, SeqInc: true, Batch: 50})))
 		add("fragment-flood-same-seq", with(base, append(pre, c09Step{Op: "frag", Typ: 1, Total: 65536, Len: 1, N: 400, Batch: 50})))
 		add("fragment-flood-400", with(base, append(pre, c09Step{Op: "frag", Typ: 1, Total: 65536, Len: 1, N: 400, SeqInc: true, Batch: 50})))
